@@ -5,6 +5,7 @@ Theorems about `Just.Analyzer` (variable walker, resolvers, arity checks).
 import Just.Model.Analyzer
 import Just.Lemmas.Dfs
 import Just.Lemmas.DfsFuel
+import Just.Lemmas.ParsedCalls
 namespace Just.Props.C03
 open Just Just.Analyzer
 
@@ -496,5 +497,15 @@ theorem resolveRecipes_no_fuel (m : Module) : resolveRecipes m ≠ .error .fuel 
     | (rename_i heq; exact hf heq)
     | cases h
 
+
+/-- **A call of an unknown function or with a wrong number of arguments never leaves the parser**: `parse_value` runs
+`Thunk::resolve` on every call, so no expression `parse_expression` returns contains a `BadCall` - whatever the tokens, at
+any depth, in any position.  (Links the parser model of C10 with the call check of this model: `fnOk` = `callsOk`.) -/
+theorem bad_call_never_parses (f : Nat) (ts : List Syntax.Tk) (e : Expr) (r : List Syntax.Tk)
+    (h : Syntax.parseExpression f ts = some (e, r)) : ¬ BadCall e := by
+  intro hb
+  have h1 := Syntax.parsed_callsOk f ts e r h
+  rw [callsOk_false_of_bad e hb] at h1
+  cases h1
 
 end Just.Props.C03
